@@ -430,3 +430,20 @@ Definition pinned_handler_shapes : list (string * list string) := [
 
 Lemma handler_error_shapes_pinned : handler_error_shapes = pinned_handler_shapes.
 Proof. reflexivity. Qed.
+
+(* ================================================================ where dynamic-voter handlers take their parameters from
+   Each method returns the like-named field of the owning object (Quorum -> VoteQuorum, VotePeriod -> VotePeriod,
+   VoteEnactment -> VoteEnactment); regenerated on every run, a swap breaks this pin. *)
+Definition pinned_dynamic_param_sources : list (string * list string) := [
+  ("x/spending.ApplyUpdateSpendingPoolProposalHandler", ["Quorum returns pool.VoteQuorum"; "VotePeriod returns pool.VotePeriod"; "VoteEnactment returns pool.VoteEnactment"]);
+  ("x/spending.ApplySpendingPoolDistributionProposalHandler", ["Quorum returns pool.VoteQuorum"; "VotePeriod returns pool.VotePeriod"; "VoteEnactment returns pool.VoteEnactment"]);
+  ("x/spending.ApplySpendingPoolWithdrawProposalHandler", ["Quorum returns pool.VoteQuorum"; "VotePeriod returns pool.VotePeriod"; "VoteEnactment returns pool.VoteEnactment"]);
+  ("x/collectives.ApplyCollectiveSendDonationProposalHandler", ["Quorum returns collective.VoteQuorum"; "VotePeriod returns collective.VotePeriod"; "VoteEnactment returns collective.VoteEnactment"]);
+  ("x/collectives.ApplyCollectiveUpdateProposalHandler", ["Quorum returns collective.VoteQuorum"; "VotePeriod returns collective.VotePeriod"; "VoteEnactment returns collective.VoteEnactment"]);
+  ("x/collectives.ApplyCollectiveRemoveProposalHandler", ["Quorum returns collective.VoteQuorum"; "VotePeriod returns collective.VotePeriod"; "VoteEnactment returns collective.VoteEnactment"]);
+  ("x/layer2.ApplyJoinDappProposalHandler", ["Quorum returns dapp.VoteQuorum"; "VotePeriod returns dapp.VotePeriod"; "VoteEnactment returns dapp.VoteEnactment"]);
+  ("x/layer2.ApplyUpsertDappProposalHandler", ["Quorum returns dapp.VoteQuorum"; "VotePeriod returns dapp.VotePeriod"; "VoteEnactment returns dapp.VoteEnactment"])
+]%string.
+
+Lemma dynamic_param_sources_pinned : dynamic_param_sources = pinned_dynamic_param_sources.
+Proof. reflexivity. Qed.
